@@ -16,7 +16,8 @@ import (
 // C07 — an incomplete message is never presented to the backend as complete.
 
 type c07Case struct {
-	Conv    int     `json:"conv"` // index into corpus()
+	CSeed   uint64  `json:"cseed"` // 0: Conv indexes the fixed corpus; else the seeded family of that seed
+	Conv    int     `json:"conv"`  // index into corpus()
 	Name    string  `json:"name"`
 	Cut     int     `json:"cut"`     // number of client octets delivered before the failure (-1: abandon case)
 	Kind    string  `json:"kind"`    // close | timeout | reset
@@ -56,6 +57,17 @@ func c07Run(ctx *core.Ctx) {
 						if ctx.Thorough() {
 							emit(c07Case{Conv: ci, Name: c.Name, Cut: cut, Kind: kind, Seg: segs[(cut+ki)%2], Mode: c.Mode, Limit: []string{"plus1", "exact"}[(cut+ki)%2]})
 						}
+					}
+				}
+			}
+		}
+		if ctx.Thorough() {
+			for k := 0; k < 2500; k++ {
+				cv := seededConv(ctx.Seed+1, k)
+				n := len(cv.bytes())
+				for cut := 0; cut <= n; cut++ {
+					for ki, kind := range []string{"close", "timeout", "reset"} {
+						emit(c07Case{CSeed: ctx.Seed + 1, Conv: k, Name: cv.Name, Cut: cut, Kind: kind, Seg: []string{"one", "line", "bytes"}[(cut+ki)%3], Mode: cv.Mode})
 					}
 				}
 			}
@@ -100,12 +112,11 @@ func c07Exec(ctx *core.Ctx, c c07Case) {
 		c07Abandon(ctx, c)
 		return
 	}
-	cs := corpus()
-	if c.Conv < 0 || c.Conv >= len(cs) {
+	cv, okc := convFor(corpus(), c.CSeed, c.Conv)
+	if !okc {
 		ctx.Broken("C07: bad conversation index")
 		return
 	}
-	cv := cs[c.Conv]
 	all := cv.bytes()
 	if c.Cut > len(all) {
 		c.Cut = len(all)
@@ -117,7 +128,7 @@ func c07Exec(ctx *core.Ctx, c c07Case) {
 			incomplete = true
 		}
 	}
-	ctx.Eval(fmt.Sprintf("%d|%d|%s|%s|%s", c.Conv, c.Cut, c.Kind, c.Seg, c.Limit), incomplete)
+	ctx.Eval(fmt.Sprintf("%d|%d|%d|%s|%s|%s", c.CSeed, c.Conv, c.Cut, c.Kind, c.Seg, c.Limit), incomplete)
 
 	rig := newRig(cv.Mode, func(s *smtp.Server) {
 		switch c.Limit {
